@@ -154,6 +154,37 @@ theorem sext_or {V k w : Nat} (hV : V < 2 ^ k) (hk : k < w) :
   have : 2 ^ w - 2 ^ k = (2 ^ (w - k) - 1) * 2 ^ k := by rw [Nat.sub_mul, ← e]; simp
   rw [this]; exact or_shift_disjoint hV
 
+theorem mask_aux (A B : Nat) (h1 : 0 < B) (h2 : B < A) : (A - 1) * B = (A - B) + (B - 1) * A := by
+  have hX : A ≤ A * B := Nat.le_mul_of_pos_right _ h1
+  have hY : B ≤ A * B := Nat.le_trans (Nat.le_of_lt h2) hX
+  rw [Nat.sub_mul, Nat.sub_mul, Nat.one_mul, Nat.one_mul, Nat.mul_comm B A]
+  omega
+
+/-- the two ways of writing the sign bits denote the same `w`-bit pattern: `~(UT)0 << k` and `-((T)1 << k)` -/
+theorem mask_eq {k w : Nat} (hk : k < w) :
+    ((2 ^ w - 1) <<< k) % 2 ^ w = (2 ^ w - (1 <<< k) % 2 ^ w) % 2 ^ w := by
+  have hkw : 2 ^ k < 2 ^ w := Nat.pow_lt_pow_right (by decide) hk
+  have hpos : 0 < 2 ^ k := Nat.two_pow_pos k
+  have hl : ((2 ^ w - 1) <<< k) % 2 ^ w = 2 ^ w - 2 ^ k := by
+    rw [Nat.shiftLeft_eq, mask_aux _ _ hpos hkw, Nat.add_mul_mod_self_right, Nat.mod_eq_of_lt (by omega)]
+  have hr : (2 ^ w - (1 <<< k) % 2 ^ w) % 2 ^ w = 2 ^ w - 2 ^ k := by
+    rw [Nat.one_shiftLeft, Nat.mod_eq_of_lt hkw, Nat.mod_eq_of_lt (by omega)]
+  rw [hl, hr]
+
+/-- `signExtend` when its condition holds, in one normal form for both source forms. -/
+theorem signExtend_applied (d : LebDecoder) (s : St) (hc : d.signed = true ∧ s.shift < d.guardBits ∧ s.byte &&& d.signMask ≠ 0)
+    (hk : s.shift < d.width) :
+    signExtend d s =
+      { s with value := s.value ||| ((2 ^ d.width - (1 <<< s.shift) % 2 ^ d.width) % 2 ^ d.width)
+               ub := s.ub || decide (d.signExtForm ≠ "unsignedMask" ∧ d.width ≤ s.shift + 1) } := by
+  unfold signExtend
+  rw [if_pos hc]
+  by_cases hf : d.signExtForm = "unsignedMask"
+  · rw [if_pos hf, mask_eq hk]
+    have : ¬ d.width ≤ s.shift := by omega
+    simp [hf, this]
+  · rw [if_neg hf]; simp [hf]
+
 theorem step_value_trunc {d : LebDecoder} (hd : WF d) (s : St) (b : UInt8) (N : Nat) (hv : s.value < 2 ^ s.shift)
     (hs : s.shift + N = d.width) :
     (step d s b).value = s.value + (b.toNat % 128 % 2 ^ N) * 2 ^ s.shift := by
@@ -171,7 +202,8 @@ theorem last_signed {d : LebDecoder} (hd : WFS d) (s : St) (b : UInt8) (N : Nat)
     ((signExtend d (step d s b)).value : Int) =
       ((s.value : Int) + (if b.toNat < 64 then (b.toNat : Int) else (b.toNat : Int) - 128) * ((2 ^ s.shift : Nat) : Int))
         % ((2 ^ d.width : Nat) : Int) ∧
-    (signExtend d (step d s b)).ub = (s.ub || decide (64 ≤ b.toNat ∧ s.shift + 8 = d.width)) ∧
+    (signExtend d (step d s b)).ub =
+      (s.ub || decide (d.signExtForm ≠ "unsignedMask" ∧ 64 ≤ b.toNat ∧ s.shift + 8 = d.width)) ∧
     (signExtend d (step d s b)).count = s.count + 1 := by
   have hwf := hd.toWF
   obtain ⟨h1, h2, h3, h4⟩ := step_fields hwf s b
@@ -182,7 +214,9 @@ theorem last_signed {d : LebDecoder} (hd : WFS d) (s : St) (b : UInt8) (N : Nat)
   have hP : 0 < 2 ^ s.shift := Nat.two_pow_pos _
   have hW : 2 ^ d.width = 2 ^ N * 2 ^ s.shift := by rw [← hs]; exact pow_split
   have hcount : (signExtend d (step d s b)).count = s.count + 1 := by
-    rw [← h2]; unfold signExtend; split <;> rfl
+    rw [← h2]; unfold signExtend; split
+    · split <;> rfl
+    · rfl
   rcases hr with ⟨h6, hr⟩ | ⟨h6, hr⟩
   · -- non-negative
     have hNN : 2 ^ N = 2 * 2 ^ (N - 1) := by rw [← Nat.pow_succ']; congr 1; omega
@@ -233,9 +267,9 @@ theorem last_signed {d : LebDecoder} (hd : WFS d) (s : St) (b : UInt8) (N : Nat)
         omega
       have hyes : signExtend d (step d s b) =
           { step d s b with value := (step d s b).value ||| ((2 ^ d.width - (1 <<< (step d s b).shift) % 2 ^ d.width) % 2 ^ d.width)
-                            ub := (step d s b).ub || decide (d.width ≤ (step d s b).shift + 1) } := by
+                            ub := (step d s b).ub || decide (d.signExtForm ≠ "unsignedMask" ∧ d.width ≤ (step d s b).shift + 1) } := by
         have : (step d s b).shift < d.guardBits := by rw [h1, hd.guard]; omega
-        simp [signExtend, hd.signed, this, hsign]
+        exact signExtend_applied d _ ⟨hd.signed, this, hsign⟩ (by rw [h1]; omega)
       rw [hyes]
       refine ⟨?_, ?_, by simpa using h2⟩
       · show (((step d s b).value ||| ((2 ^ d.width - (1 <<< (step d s b).shift) % 2 ^ d.width) % 2 ^ d.width) : Nat) : Int) = _
@@ -261,7 +295,7 @@ theorem last_signed {d : LebDecoder} (hd : WFS d) (s : St) (b : UInt8) (N : Nat)
           have h3' := Int.ofNat_lt.2 hv
           simp only [Int.natCast_mul] at h2'
           omega
-      · show ((step d s b).ub || decide (d.width ≤ (step d s b).shift + 1)) = _
+      · show ((step d s b).ub || decide (d.signExtForm ≠ "unsignedMask" ∧ d.width ≤ (step d s b).shift + 1)) = _
         rw [hub, h1]
         have : (d.width ≤ s.shift + 7 + 1) ↔ (64 ≤ b.toNat ∧ s.shift + 8 = d.width) := by omega
         simp [this]
@@ -306,7 +340,7 @@ theorem loop_sleb {d : LebDecoder} (hd : WFS d) {N : Nat} {v : Int} {bs : Bytes}
       ((signExtend d (loop d fuel (bs ++ rest) s).1).value : Int) =
         ((s.value : Int) + v * ((2 ^ s.shift : Nat) : Int)) % ((2 ^ d.width : Nat) : Int) ∧
       (signExtend d (loop d fuel (bs ++ rest) s).1).ub =
-        (s.ub || decide (v < 0 ∧ s.shift + 7 * bs.length + 1 = d.width)) := by
+        (s.ub || decide (d.signExtForm ≠ "unsignedMask" ∧ v < 0 ∧ s.shift + 7 * bs.length + 1 = d.width)) := by
   have hwf := hd.toWF
   induction h with
   | @pos N b hN h6 hr =>
@@ -388,7 +422,8 @@ theorem toSigned_emod {w : Nat} (hw : 0 < w) {v : Int} (hl : -((2 ^ (w - 1) : Na
 
 theorem readS_sleb {d : LebDecoder} (hd : WFS d) {v : Int} {bs : Bytes} (h : SLeb d.width v bs) (rest : Bytes) :
     readS d (bs ++ rest) =
-      { value := v, count := bs.length, rest := rest, ub := decide (v < 0 ∧ 7 * bs.length + 1 = d.width) } := by
+      { value := v, count := bs.length, rest := rest,
+        ub := decide (d.signExtForm ≠ "unsignedMask" ∧ v < 0 ∧ 7 * bs.length + 1 = d.width) } := by
   obtain ⟨r1, r2, r3, r4⟩ :=
     loop_sleb hd h d.maxBytes St.init rest hd.fuel (by simp [St.init]) (by simp [St.init])
   obtain ⟨hl, hu⟩ := h.range
@@ -454,8 +489,28 @@ theorem signExtend_fields (d : LebDecoder) (s : St) :
     (signExtend d s).count = s.count ∧ (signExtend d s).shift = s.shift ∧
     (s.value < 2 ^ d.width → (signExtend d s).value < 2 ^ d.width) := by
   unfold signExtend; split
-  · refine ⟨rfl, rfl, fun hv => Nat.or_lt_two_pow hv (Nat.mod_lt _ (Nat.two_pow_pos _))⟩
+  · split
+    · refine ⟨rfl, rfl, fun hv => Nat.or_lt_two_pow hv (Nat.mod_lt _ (Nat.two_pow_pos _))⟩
+    · refine ⟨rfl, rfl, fun hv => Nat.or_lt_two_pow hv (Nat.mod_lt _ (Nat.two_pow_pos _))⟩
   · exact ⟨rfl, rfl, id⟩
+
+/-- When the sign extension can be the first undefined operation of a call. -/
+theorem signExtend_ub (d : LebDecoder) (s : St) (hg : d.guardBits ≤ d.width) (h : (signExtend d s).ub = true) :
+    s.ub = true ∨ (d.signExtForm ≠ "unsignedMask" ∧ d.signed = true ∧ s.shift < d.guardBits ∧ d.width ≤ s.shift + 1) := by
+  unfold signExtend at h
+  split at h
+  · rename_i hc
+    split at h
+    · simp only [Bool.or_eq_true, decide_eq_true_eq] at h
+      rcases h with h | h
+      · exact Or.inl h
+      · omega
+    · rename_i hf
+      simp only [Bool.or_eq_true, decide_eq_true_eq] at h
+      rcases h with h | h
+      · exact Or.inl h
+      · exact Or.inr ⟨hf, hc.1, hc.2.1, h⟩
+  · exact Or.inl h
 
 /-- Totality of a decoder call (`run`) on ANY buffer. -/
 theorem run_total {d : LebDecoder} (hd : WF d) (bs : Bytes) :
